@@ -32,9 +32,9 @@ instance (w : World) : Decidable (idle w) := by unfold idle; exact inferInstance
 
 /-- a freshly built object with the given values, watchers and Parameter attributes -/
 def fresh (vals : List Int) (regs : List Watcher) (slotVals : List ((Nat × Nat) × Int))
-    (slotKeys : List (Nat × Nat)) (ncalls : Nat) (nreg : Nat := 0) : World :=
+    (slotKeys : List (Nat × Nat)) (ncalls : Nat) (nreg : Nat := 0) (owned : List Nat := []) : World :=
   { vals := vals, regs := regs, batch := false, trigger := false, events := [], queued := [], setMode := [],
-    slotVals := slotVals, slotKeys := slotKeys, ncalls := ncalls, nreg := nreg }
+    slotVals := slotVals, slotKeys := slotKeys, ncalls := ncalls, nreg := nreg, owned := owned }
 
 /-- **C05 (flags).**  Whatever a call does and however it ends — normally, with a rejected value,
 with an exception from a callback or a context body at any depth — the batching flag and the
@@ -69,7 +69,7 @@ theorem idle_in_idle_out_program (c : Cfg) (f : Nat) (l : List Stmt) (w : World)
 
 /-- **C05 (behaves like a fresh twin).**  An idle dispatcher has no hidden state: it *is* the
 freshly built object with the same values and watchers, so every later call behaves identically. -/
-theorem idle_is_fresh (w : World) (hi : idle w) : w = fresh w.vals w.regs w.slotVals w.slotKeys w.ncalls w.nreg := by
+theorem idle_is_fresh (w : World) (hi : idle w) : w = fresh w.vals w.regs w.slotVals w.slotKeys w.ncalls w.nreg w.owned := by
   obtain ⟨hb, ht, he, hq, hm⟩ := hi
   cases w
   simp_all [fresh]
@@ -77,7 +77,7 @@ theorem idle_is_fresh (w : World) (hi : idle w) : w = fresh w.vals w.regs w.slot
 theorem behaves_like_fresh_twin (c : Cfg) (f g : Nat) (s : Stmt) (next : Call) (w : World) (hi : idle w)
     (h : (run c f (.stmt s) w).1 ≠ .oof) :
     let w' := (run c f (.stmt s) w).2.1
-    run c g next w' = run c g next (fresh w'.vals w'.regs w'.slotVals w'.slotKeys w'.ncalls w'.nreg) := by
+    run c g next w' = run c g next (fresh w'.vals w'.regs w'.slotVals w'.slotKeys w'.ncalls w'.nreg w'.owned) := by
   intro w'
   have := idle_is_fresh w' (idle_in_idle_out c f s w hi h)
   rw [← this]
